@@ -30,11 +30,41 @@ def source_digest(fn):
     return hashlib.sha256(ast.dump(fn).encode()).hexdigest()[:16]
 
 
+def describe_assumptions(contract):
+    """what the verdicts of this contract rest on besides the code: its preconditions (facts about callers / type
+    invariants) and the callees seen through a contract or an assumed model instead of their bodies"""
+    from pyvc.core import CallContract, FnV, Obj
+    out = {'requires': [c if isinstance(c, str) else c[1] for c in contract.requires], 'callees': {}}
+
+    def doc(f):
+        d = (getattr(f, '__doc__', None) or '').strip().split('\n\n')[0]
+        return ' '.join(d.split())[:400] or 'assumed model (no description)'
+    for name, m in contract.calls.items():
+        if isinstance(m, CallContract):
+            out['callees'][name] = 'contract %s (proved on its own)' % m.contract.id
+        else:
+            out['callees'][name] = 'assumed: ' + doc(m)
+
+    def walk(name, v, depth=0):
+        if depth > 3:
+            return
+        if isinstance(v, FnV):
+            out['callees'].setdefault(name, 'assumed: ' + doc(v.fn))
+        elif isinstance(v, dict):
+            for k, x in v.items():
+                if isinstance(k, str):
+                    walk('%s.%s' % (name, k), x, depth + 1)
+    for name, v in (contract.globals or {}).items():
+        walk(name, v)
+    return out
+
+
 def verify_contract(contract, X, canary=True):
     """-> dict(contract=id, status, obligations={oid: {...}}, stats)"""
     t0 = time.time()
     out = {'contract': contract.id, 'target': '%s::%s' % (contract.file, contract.qual), 'obligations': {},
-           'status': 'ok', 'paths': 0, 'wall_s': 0.0, 'properties': contract.properties}
+           'status': 'ok', 'paths': 0, 'wall_s': 0.0, 'properties': contract.properties,
+           'assumed': describe_assumptions(contract)}
     try:
         fn = _extract(contract)
         out['source_digest'] = source_digest(fn)
@@ -60,7 +90,28 @@ def verify_contract(contract, X, canary=True):
     obs = out['obligations']
     presat = False
     presat_open = False      # some path condition could not be decided within the budget (load): not a verdict
-    for vc in vcs:
+    exits, exit_sat, exit_open = 0, False, False
+    # the cheapest witness first: exits with the shortest path condition
+    canaries = sorted([v for v in vcs if v.kind == 'canary'], key=lambda v: sum(len(str(p)) for p in v.pc[:40]))
+    for vc in canaries + [v for v in vcs if v.kind != 'canary']:
+        if vc.kind == 'canary':
+            exits += 1
+            if not exit_sat:
+                for budget, seed in ((10000, None), (30000, 7), (core.TIMEOUT_MS * 6, 13)):
+                    sc = z3.Solver()
+                    sc.set('timeout', budget)
+                    if seed is not None:
+                        sc.set('smt.random_seed', seed)
+                    for p in vc.pc:
+                        sc.add(p)
+                    rc = sc.check()
+                    if rc != z3.unknown:
+                        break
+                if rc == z3.sat:
+                    exit_sat = True
+                elif rc == z3.unknown:
+                    exit_open = True
+            continue
         if vc.kind == 'vacuity':
             # pre-sat: `False` must be refutable, i.e. the path condition is satisfiable
             if not presat:
@@ -100,6 +151,12 @@ def verify_contract(contract, X, canary=True):
     obs[contract.id + '#pre-sat'] = {'verdict': 'proved' if presat else 'refuted', 'instances': 1, 'time_s': 0.0,
                                      'backends': ['z3'], 'kind': 'vacuity',
                                      'note': 'requires-clauses are satisfiable on some path'}
+    if exits:
+        obs[contract.id + '#exit-reachable'] = {
+            'verdict': 'proved' if exit_sat else ('unknown' if exit_open else 'vacuous'), 'instances': exits, 'time_s': 0.0,
+            'backends': ['z3'], 'kind': 'vacuity',
+            'note': 'canary: some normal exit of the function is reachable under the contract\'s assumptions (otherwise '
+                    'every postcondition would hold vacuously)'}
     if not presat:
         # vacuous only if every path condition is *proved* unsatisfiable; an undecided one is `unknown` (retried by the
         # driver with a larger budget, never reported as a violation)
